@@ -142,19 +142,10 @@ def vanillaMultiIter (g : Game α) (sampled : Bool) (p : RegretParams α) (draw 
   let (two, r2) := advanceAll p it it s.two 0
   (⟨one, two⟩, r1, r2, d.log)
 
-def vanillaMultiLoop (g : Game α) (sampled : Bool) (p : RegretParams α) (draw : DrawFn α)
-    (thr : Option (Ext α)) (target : Nat) :
-    Nat → Nat → SolveSt α → Ext α → Ext α → List (DrawRec α) → SolveOut α
-  | 0, it, s, r1, r2, log => ⟨r1, r2, s.avg true, s.avg false, it - 1, log⟩
-  | n + 1, it, s, _, _, log =>
-    let (s, r1, r2, log) := vanillaMultiIter g sampled p draw target it s log
-    if belowThreshold r1 r2 thr then ⟨.fin r1, .fin r2, s.avg true, s.avg false, it, log⟩
-    else vanillaMultiLoop g sampled p draw thr target n (it + 1) s (.fin r1) (.fin r2) log
-
 /-- `solve_full_multi` / `solve_sampled_multi` with an explicit task target -/
 def solveVanillaMulti (g : Game α) (sampled : Bool) (p : RegretParams α) (draw : DrawFn α)
     (maxIter : Nat) (thr : Option (Ext α)) (target : Nat) : SolveOut α :=
-  vanillaMultiLoop g sampled p draw thr target maxIter 1 (SolveSt.init g) .posInf .posInf []
+  solveWith g (vanillaMultiIter g sampled p draw target) maxIter thr
 
 /-! ## external sampling -/
 
@@ -262,19 +253,17 @@ def externalMultiPass (g : Game α) (first : Bool) (p : RegretParams α) (draw :
   let (xs, r) := advanceAll p it (if first then it - 1 else it) (s.get first) 0
   (s.set first xs, r, d.log)
 
-def externalMultiLoop (g : Game α) (p : RegretParams α) (draw : DrawFn α) (thr : Option (Ext α))
-    (target : Nat) : Nat → Nat → SolveSt α → Ext α → Ext α → List (DrawRec α) → SolveOut α
-  | 0, it, s, r1, r2, log => ⟨r1, r2, s.avg true, s.avg false, it - 1, log⟩
-  | n + 1, it, s, _, _, log =>
-    let (s, r1, log) := externalMultiPass g true p draw target it s log
-    let (s, r2, log) := externalMultiPass g false p draw target it s log
-    if belowThreshold r1 r2 thr then ⟨.fin r1, .fin r2, s.avg true, s.avg false, it, log⟩
-    else externalMultiLoop g p draw thr target n (it + 1) s (.fin r1) (.fin r2) log
+def externalMultiIter (g : Game α) (p : RegretParams α) (draw : DrawFn α) (target : Nat) : IterFn α :=
+  fun it s log =>
+  match externalMultiPass g true p draw target it s log with
+  | (s, r1, log) =>
+    match externalMultiPass g false p draw target it s log with
+    | (s, r2, log) => (s, r1, r2, log)
 
 /-- `solve_external_multi` with an explicit task target -/
 def solveExternalMulti (g : Game α) (p : RegretParams α) (draw : DrawFn α)
     (maxIter : Nat) (thr : Option (Ext α)) (target : Nat) : SolveOut α :=
-  externalMultiLoop g p draw thr target maxIter 1 (SolveSt.init g) .posInf .posInf []
+  solveWith g (externalMultiIter g p draw target) maxIter thr
 
 end
 end Cfr
